@@ -223,3 +223,28 @@ func (p *Prog) typeStr(t types.Type) string {
 	s := types.TypeString(t, func(pk *types.Package) string { return pk.Path() })
 	return p.abbrev(s)
 }
+
+// directCallees lists the in-module product functions (with bodies) called
+// directly in the body of fs, in source order without duplicates.
+func (p *Prog) directCallees(fs *FuncSrc) []string {
+	var out []string
+	seen := map[string]bool{}
+	info := fs.Pkg.TypesInfo
+	ast.Inspect(fs.Decl.Body, func(n ast.Node) bool {
+		call, ok := n.(*ast.CallExpr)
+		if !ok {
+			return true
+		}
+		if fn, ok := typeutil.Callee(info, call).(*types.Func); ok {
+			if t := p.Funcs[fn.Origin()]; t != nil {
+				name := p.abbrev(fn.FullName())
+				if !seen[name] {
+					seen[name] = true
+					out = append(out, name)
+				}
+			}
+		}
+		return true
+	})
+	return out
+}
